@@ -75,10 +75,14 @@ class SetEncoder(AbstractItemEncoder):
         namedTypes = value.componentType
         substrate = self.protoDict()
 
-        for idx, (key, subValue) in enumerate(value.items()):
-            if namedTypes and namedTypes[idx].isOptional and not value[idx].isValue:
+        for idx, key in enumerate(value.keys()):
+            # an absent OPTIONAL component must not come into being
+            # (possibly as an empty value) by looking at it
+            if (namedTypes and namedTypes[idx].isOptional and
+                    value.getComponentByPosition(
+                        idx, instantiate=False) is univ.noValue):
                 continue
-            substrate[key] = encodeFun(subValue, **options)
+            substrate[key] = encodeFun(value[key], **options)
         return substrate
 
 
